@@ -40,7 +40,10 @@ Proof. split; [vm_compute; reflexivity|cbn; lia]. Qed.
 (* ------------------------------------------------------------------ NewFactory *)
 
 (* the two rejections of enum_new in the same order (more than 255 values; a value listed twice), then the panic of
-   make for a negative size hint, then the factory for (values, no ranks yet) *)
+   make for a negative size hint, then the factory for (values, no ranks yet).  The factory's value table is the
+   fresh copy values = append(make([]string, 0, len(values)), values...) (repair of finding F27: the column no
+   longer appends new values into the caller's array): the same list, and what makes the list reading of the
+   value table sound; a NewFactory that stores its argument slice without this copy is rejected by the translator *)
 Theorem T1_enum_NewFactory values (h : Z) :
   gef_NewFactory values h =
   if (N.to_nat c_maxCardinality <? length values) then Ok (None, Some err_too_many)
@@ -49,6 +52,11 @@ Theorem T1_enum_NewFactory values (h : Z) :
   else Ok (Some (factory_of values), None).
 Proof. exact (gef_NewFactory_eq values h). Qed.
 Print Assumptions T1_enum_NewFactory.
+
+Example T1_enum_NewFactory_example :
+  gef_NewFactory [[97%N]; [98%N]] 0 = Ok (Some (factory_of [[97%N]; [98%N]]), None)
+  /\ gef_NewFactory [[97%N]; [97%N]] 0 = Ok (None, Some err_duplicate) /\ gef_NewFactory [] (-1) = Panic.
+Proof. repeat split; vm_compute; reflexivity. Qed.
 
 Theorem T1_enum_NewFactory_rep values :
   length values <= 255 -> fac_rep (factory_of values) (negb (Nat.eqb (length values) 0)) (values, []).
